@@ -15,14 +15,10 @@ BUILD_TARGETS = ["AldorVerif.Props.C20Bitv"]
 SOURCES = ["bitv.c", "bitv.h"]
 MODELLED = ("bitv.c: bitvClassCreate bitvSetAll bitvClearAll bitvTest bitvSet bitvClear bitvCopy bitvNot bitvAnd bitvOr "
             "bitvMinus bitvEqual bitvMax bitvCount bitvCountTo bitvUnique1IndexInRange bitvFromInt bitvToInt bitvToString "
-            "bitvResize (not: bitvNew/bitvFree/bitvManyNew allocation, bitvPrint/bitvPrintDb to a FILE)")
+            "bitvResize (in place and with reallocation) (not: bitvNew/bitvFree/bitvManyNew allocation, bitvPrint/bitvPrintDb to a FILE)")
 THEOREMS = [("AldorVerif.Props.C20Bitv", "AldorVerif.Bitv." + t) for t in (
     "bitv_set_algebra", "bitv_wf", "bitv_set_clear_test", "bitv_equal_iff", "bitv_count_spec", "bitv_max_spec",
     "bitv_unique_spec", "bitv_fromInt_test", "bitv_resize_test")]
-
-# growing a vector into more words makes bitvResize call bitvFree on an advanced pointer (store
-# error, exit 1) on the pinned tree: see the report; generated only when this is switched on
-PROBE_RESIZE_REALLOC = False
 
 SIZES = [0, 1, 2, 3, 5, 7, 31, 32, 33, 63, 64, 65, 100, 127, 128, 129, 191, 192, 193, 200, 1000]
 
@@ -76,6 +72,25 @@ def gen_padding(sizes):
         out.append("V %d %s" % (nbits, " ".join(ops)))
     return out
 
+def gen_resize(sizes):
+    """bitvResize between every pair of boundary sizes: members below the old size survive, in
+    the same words (shrink / growth inside the word count) or in a new allocation (growth into more
+    words); then back and forth once more"""
+    out = []
+    for old in sizes:
+        for new in sizes:
+            if old == new and old > 3: continue
+            bits = sorted({i for i in (0, 1, old // 2, old - 2, old - 1, 63, 64, 65) if 0 <= i < old})
+            ops = ["s:0:%d" % i for i in bits] + ["sa:1", "n:2:0", "w:0", "w:1", "w:2", "rs:%d" % new]
+            ops += ["w:%d" % r for r in range(4)]
+            ops += ["t:%d:%d" % (r, i) for r in (0, 1, 2) for i in bits if i < new]
+            if new > 0:
+                ops += ["s:3:%d" % (new - 1), "t:3:%d" % (new - 1), "mx:3", "c:0:%d" % (new - 1), "s:0:0", "w:0"]
+            ops += ["ca:3", "sa:1", "&:2:1:0", "=:2:0", "|:2:3:0", "=:2:0", "ct:1", "mx:1"]
+            ops += ["rs:%d" % old, "w:0", "w:1", "rs:%d" % new, "w:0", "w:1", "=:2:2", "ct:3"]
+            out.append("V %d %s" % (old, " ".join(ops)))
+    return out
+
 def gen_random(rng, nbits, nops, allow_resize=True):
     ops = []
     cur = nbits
@@ -110,17 +125,18 @@ def gen_random(rng, nbits, nops, allow_resize=True):
         elif r < 0.90:
             lim = rng.randint(0, cur); org = rng.randint(0, lim + 1)
             ops.append("u:%d:%d:%d" % (R(), org, lim))
-        elif r < 0.985:
+        elif r < 0.975:
             if cur < 32:
                 ops.append(rng.choice(("fi:%d:%d" % (R(), rng.randrange(1 << 31)), "ti:%d" % R())))
             else:
                 ops.append("=:%d:%d" % (R(), R()))
         elif allow_resize:
-            # shrink, or grow inside the same number of words (the vector is returned unchanged)
+            # shrink, grow inside the same number of words (the vector is returned unchanged), or
+            # grow into more words (new allocation, old words copied, old vector freed)
             lo = 0
             hi = nwords(cur) * 64
-            if PROBE_RESIZE_REALLOC and rng.random() < 0.3:
-                hi += 130
+            if rng.random() < 0.4:
+                hi += rng.choice((1, 64, 65, 130, 300))
             n = rng.randint(lo, hi) if rng.random() < 0.5 else rng.choice([x for x in (hi, hi - 1, hi - 63, hi - 64, hi - 65, 31, 1, 0) if 0 <= x <= hi])
             ops.append("rs:%d" % n); cur = n
     for k in range(4):
@@ -234,6 +250,7 @@ def run_part(ctx, build):
     ncorpus = len(lines)
     lines += gen_exhaustive()
     lines += gen_padding(SIZES if not thorough else sorted(set(SIZES + list(range(0, 260)))))
+    lines += gen_resize([0, 1, 31, 63, 64, 65, 128, 129, 200] if not thorough else SIZES)
     nexh = len(lines) - ncorpus
     for _ in range(6000 if not thorough else 40000):
         u = rng.random()
@@ -256,10 +273,7 @@ def run_part(ctx, build):
         short = ln if len(ln) < 1500 else ln[:1500] + " ...(%d ops)" % nops
         if co.startswith("FAULT") or co in ("MISSING", "SKIPPED"):
             stats["faults"] += 1
-            sig = "bitv|fault"
-            if "rs:" in ln and "resize-realloc" in tags[k]:
-                sig = "bitv|resize-frees-advanced-pointer"
-            ctx.finding(sig, "bitv.c faults (%s) on: %s" % (co, short),
+            ctx.finding("bitv|fault", "bitv.c faults (%s) on: %s" % (co, short),
                         {"kind": "impl-fault", "driver": "harness/bitv_drv.c", "line": ln, "impl": co, "model": mo[:2000]})
             continue
         ok, j, why = oracle(ln, co)
